@@ -189,6 +189,8 @@ def run(path, rlimit=30, multiple_errors=10, threads=8, timeout=900, extra=()):
             lab = s.get("label") or ""
             if body_span is not None and s is body_span:
                 continue
+            if not s.get("file_name", "").endswith(os.path.basename(path)):
+                continue        # a span inside vstd: its line numbers mean nothing in the generated file
             for no in range(s["line_start"], min(s["line_end"] + 1, len(lines)) + 1):
                 m = LABEL_RE.search(lines[no - 1])
                 if m:
